@@ -90,6 +90,13 @@ def check(run):
     scns.append({"rounds": [{"append": 5600, "kill": {"point": "persisted", "off": 3}}, {"append": 7, "clean": True}]})
     if thorough:
         scns.append({"rounds": [{"append": 7300, "kill": {"point": "incb", "off": 2100}}, {"append": 600, "clean": True}]})
+    # every third schedule, and the backlogs once more, run through wasp.SchedulePublishes (what cmd/wasp starts) with a writer that
+    # records what is handed to it, instead of a bare Consume call
+    for i, s_ in enumerate(scns):
+        if i % 3 == 1:
+            s_["sched"] = True
+    scns.append({"sched": True, "rounds": [{"append": 5600, "clean": True}]})
+    scns.append({"sched": True, "rounds": [{"append": 2600, "kill": {"point": "cb.ret", "off": 120}}, {"append": 40, "clean": True}]})
     spath = os.path.join(run.scratch, "scenarios.ndjson")
     with open(spath, "w") as f:
         for s in scns:
@@ -121,7 +128,7 @@ def check(run):
         "rule": "scenario = TLC-generated crash schedule (kill phase in {inside callback, after callback return, after offset write, after "
                 "truncation check} x offset class in log order) mapped to concrete offsets around 0-1, 9-11, 499-501, 1999-2001, 2999-3001 "
                 "and random ones, appends before and during consumption, closed by a clean run that must hand over every entry; plus backlogs of "
-                "5600 entries (more than ten segments) appended before anything is consumed, with and without a kill and restart in front of them; "
+                "5600 entries (more than ten segments) appended before anything is consumed, with and without a kill and restart in front of them; a third of the schedules consumed through wasp.SchedulePublishes; "
                 "evaluations = SIGKILLs executed; distinct = crash schedules",
         "events_validated": nev, "trace_spec_states": tstates, "rejections": len(rejected),
         "negative_control": "MC with Margin=0 violates TruncSafe as required",
